@@ -97,6 +97,10 @@ class ContainerBase:
     def mk_copy(self, copy_node: bool = False) -> ContainerBase:
         """Make a copy of self."""
         copied = copy.copy(self)
+        # the copy gets its own storage for observable properties (node): copy.copy shares the dictionary of self,
+        # setting the node of the copy would also set the node of self
+        copied.__dict__.pop('_property_instance_data', None)
+        copied.node = self.node
         for _, cprop in self.sorted_container_properties():
             value = cprop.get_actual_value(self)
             if value is not None:
